@@ -281,6 +281,27 @@ def run_shard(spec):
                           "(statuses %s)" % (e["func"], kw, pepit, st2), e, kw, wrapper)
                 except Exception as ex:
                     counters["reformulation_exceptions:" + type(ex).__name__] = counters.get("reformulation_exceptions:" + type(ex).__name__, 0) + 1
+            # irrelevant input: a schedule (list parameter) longer than the n iterations that use it - neither the computed
+            # value nor the documented reference value may depend on the unused trailing entries
+            longer = [k_ for k_, v_ in kw.items() if isinstance(v_, (list, tuple)) and isinstance(kw.get("n"), int) and len(v_) > kw["n"]]
+            if longer and wrapper == "cvxpy":
+                kw2 = dict(kw)
+                for k_ in longer:
+                    kw2[k_] = list(kw[k_])[:kw["n"]]
+                try:
+                    (p3, t3), st3, _w = call_example(e, kw2, wrapper)
+                    if st3 and all(is_optimal_status(s_) for s_ in st3) and p3 is not None:
+                        counters["unused_trailing_entries_compared"] = counters.get("unused_trailing_entries_compared", 0) + 1
+                        if abs(p3 - pepit) > 1e-3 * abs(pepit) + 1e-6:
+                            V("value_depends_on_unused_schedule_entries:%s" % e["name"],
+                              "%s(%s): computed %.8g, but %.8g when the unused entries beyond n = %d of %s are dropped"
+                              % (e["func"], kw, pepit, p3, kw["n"], longer), e, kw, wrapper)
+                        if theory is not None and t3 is not None and abs(t3 - theory) > 1e-9 * (1 + abs(theory)):
+                            V("reference_value_depends_on_unused_schedule_entries:%s" % e["name"],
+                              "%s(%s): documented reference value %.8g, but %.8g when the unused entries beyond n = %d of %s are dropped"
+                              % (e["func"], kw, theory, t3, kw["n"], longer), e, kw, wrapper)
+                except Exception as ex:
+                    counters["truncation_exceptions:" + type(ex).__name__] = counters.get("truncation_exceptions:" + type(ex).__name__, 0) + 1
             if not ok:
                 V("example_disagrees_with_documented_rate:%s" % e["name"],
                   "%s(%s) [%s]: computed %.8g, documented %s value %.8g (relative gap %.2e)"
